@@ -41,6 +41,18 @@ theorem no_sendable_left (evs : List Ev) :
   intro s hs hr hrun hp
   exact (reachable evs).1.blk s hs (by simp [flushable, hr, hrun, hp])
 
+/-- **END_STREAM once, and on the last octet**: in every reachable state, for every stream, at most one DATA
+frame carrying END_STREAM has been sent (`fins` counts them: `sendData_spec.fins` ties the counter to the frames
+each `sendData` run emits), and once it has been sent nothing is owed on the stream any more. -/
+theorem end_stream_once (evs : List Ev) :
+    ∀ s ∈ (run init evs).1.strms, s.fins ≤ 1 ∧ (s.fins = 1 → s.pending = 0 ∧ s.responded = true) :=
+  run_fin evs init (by intro s hs; simp [init] at hs)
+
+/-- … and a `sendData` run sets END_STREAM on a frame exactly when that run takes the last octet owed -/
+theorem end_stream_on_last_octet (s : Strm) (cw : Int) (cs : Nat) :
+    finTotal (sendData s cw cs).2.2.2 = if 0 < s.pending ∧ (sendData s cw cs).1.pending = 0 then 1 else 0 :=
+  (sendData_spec s cw cs).finspec
+
 /-- one `sendData` run conserves octets: what it emits plus what stays pending is what was pending -/
 theorem send_conserves (s : Strm) (cw : Int) (cs : Nat) :
     (sendData s cw cs).1.pending + total (sendData s cw cs).2.2.2 = s.pending :=
